@@ -132,19 +132,25 @@ static void gen_inot(int tier)
 		IN_ALL_EVENTS | IN_ONESHOT, IN_MODIFY | IN_ONESHOT,
 	};
 	int ninst = 1 + P(30), i, j, big = tier > 0, watches[40], nw = 0, insts[2], len;
+	int two = ninst == 2 && P(45), drv;	/* each instance in a loop thread of its own */
 
-	gx_common_cfg(2);
-	G->nthr = 2;
+	gx_common_cfg(two ? 3 : 2);
+	G->nthr = two ? 3 : 2;
 	G->thr[0].kind = 'L'; G->thr[0].cycles = 1; G->thr[0].deinit = !P(15); G->thr[0].td = 1; G->thr[0].exitmode = P(20);
-	G->thr[1].kind = 'D'; G->thr[1].cycles = 1;
+	if (two) {
+		G->thr[1].kind = 'L'; G->thr[1].cycles = 1; G->thr[1].deinit = !P(15); G->thr[1].td = 1; G->thr[1].exitmode = P(20);
+	}
+	drv = two ? 2 : 1;
+	G->thr[drv].kind = 'D'; G->thr[drv].cycles = 1;
 	if (P(20))
 		G->cfg.strategy = 0, G->cfg.p_switch = 0;	/* bursts stay together */
 	for (i = 0; i < ninst; i++) {
-		int in = gx_add_obj(K_INOT, 0), n = 1 + R(big ? 8 : 6);
+		int own = two ? i : 0;
+		int in = gx_add_obj(K_INOT, own), n = 1 + R(big ? 8 : 6);
 		insts[i] = in;
-		gx_add_op(CTX_SETUP, 0, 0, OP_REG, in, 0, 0, 0);
+		gx_add_op(CTX_SETUP, own, 0, OP_REG, in, 0, 0, 0);
 		for (j = 0; j < n && nw < 38; j++) {
-			int w = gx_add_obj(K_WATCH, 0);
+			int w = gx_add_obj(K_WATCH, own);
 			G->obj[w].p[0] = in;
 			/* Instances never watch related inodes (the same one, or a directory and an entry in it):
 			 * the kernel delivers one filesystem event to all interested groups in the order of the
@@ -161,21 +167,26 @@ static void gen_inot(int tier)
 			G->obj[w].p[2] = masks[R(7)];
 			watches[nw++] = w;
 			if (P(80))
-				gx_add_op(CTX_SETUP, 0, 0, OP_REG, w, 0, 0, 0);
+				gx_add_op(CTX_SETUP, own, 0, OP_REG, w, 0, 0, 0);
 		}
 	}
 	for (i = 0; i < nw; i++) {
 		int w = watches[i], na = R(4);
 		while (na-- > 0) {
 			int when = P(35) ? 0 : 1 + R(4), r = R(100);
+			int ow = watches[R(nw)], oi = insts[R(ninst)];
+			if (G->obj[ow].owner != G->obj[w].owner)
+				ow = w;		/* a handler touches objects of its own thread only */
+			if (G->obj[oi].owner != G->obj[w].owner)
+				oi = (int)G->obj[w].p[0];
 			if (r < 30)
 				gx_add_op(CTX_CB, w, when, OP_UNREG, w, 0, 0, 0);
 			else if (r < 55)
-				gx_add_op(CTX_CB, w, when, OP_UNREG, watches[R(nw)], 0, 0, 0);
+				gx_add_op(CTX_CB, w, when, OP_UNREG, ow, 0, 0, 0);
 			else if (r < 65)
-				gx_add_op(CTX_CB, w, when, OP_UNREG, insts[R(ninst)], 0, 0, 0);
+				gx_add_op(CTX_CB, w, when, OP_UNREG, oi, 0, 0, 0);
 			else if (r < 85)
-				gx_add_op(CTX_CB, w, when, OP_REG, watches[R(nw)], 0, 0, 0);
+				gx_add_op(CTX_CB, w, when, OP_REG, ow, 0, 0, 0);
 			else
 				gx_add_op(CTX_CB, w, when, OP_FSOP, R(8), R(7), 0, 0);
 		}
@@ -184,23 +195,24 @@ static void gen_inot(int tier)
 	while (len-- > 0) {
 		int r = R(100);
 		if (r < 18)
-			gx_add_op(CTX_DRV, 1, 0, OP_SLEEP, 0, gx_delta(), 0, 0);
+			gx_add_op(CTX_DRV, drv, 0, OP_SLEEP, 0, gx_delta(), 0, 0);
 		else {
 			/* bursts put several records into one read */
 			int burst = P(50) ? 1 : 2 + R(6);
 			while (burst-- > 0)
-				gx_add_op(CTX_DRV, 1, 0, OP_FSOP, R(8), R(7), 0, 0);
+				gx_add_op(CTX_DRV, drv, 0, OP_FSOP, R(8), R(7), 0, 0);
 		}
 	}
 	if (P(20)) {
-		int tm = gx_add_obj(K_TIMER, 0);
-		gx_add_op(CTX_SETUP, 0, 0, OP_REG, tm, 1, gx_delta(), 0);
-		gx_add_op(CTX_CB, tm, 1, OP_UNREG, insts[R(ninst)], 0, 0, 0);
+		int which = R(ninst), town = G->obj[insts[which]].owner;
+		int tm = gx_add_obj(K_TIMER, town);
+		gx_add_op(CTX_SETUP, town, 0, OP_REG, tm, 1, gx_delta(), 0);
+		gx_add_op(CTX_CB, tm, 1, OP_UNREG, insts[which], 0, 0, 0);
 		if (P(50))
-			gx_add_op(CTX_CB, tm, 1, OP_REG, insts[R(ninst)], 0, 0, 0);
+			gx_add_op(CTX_CB, tm, 1, OP_REG, insts[which], 0, 0, 0);
 	}
 	gx_absent(8);
-	gx_eintr(1, 12);
+	gx_eintr(two ? 2 : 1, 12);
 	gx_regfail();
 }
 
